@@ -245,7 +245,10 @@ class EvalMixin(InterpBase):
         if isinstance(base, Opaque) and isinstance(base.what, tuple) and base.what[0] == "os" and name == "path":
             return ModuleV("os.path")
         if isinstance(base, NdV) and name == "dtype":
-            return Opaque(("dtype", base.dtype))
+            return base.dtype if isinstance(base.dtype, Opaque) else Opaque(("dtype", base.dtype))
+        if isinstance(base, NdV) and name == "T" and len(base.shape) == 2:
+            self.trusted.add("numpy: a.T of a 2-D array: out[k][f] = a[f][k]")
+            return NdV((base.shape[1], base.shape[0]), lambda idx, a=base: a.fn((idx[1], idx[0])), base.dtype)
         if isinstance(base, (ListV, DictV, tuple, IterV, NdV, RegexV, MatchV)) or is_strv(base):
             return BoundMethod(base, "builtin." + name)
         if isinstance(base, ExcV):
